@@ -80,23 +80,33 @@ def main(pid, tier, seed):
         elif real != want:
             drift.append({'password': s, 'real': real, 'model': want})
 
-    # ---- code -> spec: fragment passwords with a multi-word history ----
+    # ---- code -> spec: fragment passwords under several multi-word histories ----
     n_frag = 1500 if tier == 'quick' else 25000
-    training = []
-    for w in BASE_WORDS:
-        training += [w] * 5 + [w + '1']
-    training += ['password', 'Password', 'passwordpass'] * 2
-    rec2 = segment.Recorder(training)
+    histories = []
+    for h in range(4 if tier == 'quick' else 12):
+        training = []
+        words = rng.sample(BASE_WORDS + ['dragon', 'sun', 'moon', 'star'], rng.randint(3, 7))
+        for w in words:
+            # around the threshold of 5: some words are base words, some are one short of it
+            training += [w] * rng.choice([3, 4, 5, 5, 6, 9]) + ([w + '1'] if rng.random() < 0.5 else [])
+        if rng.random() < 0.5:
+            training += [words[0] + words[1]] * rng.choice([1, 5])       # a whole multi-word that may itself be a base word
+        training += ['password', 'Password', 'passwordpass'] * rng.randint(0, 3)
+        histories.append((words, training, segment.Recorder(training)))
     for k in range(n_frag):
+        words, training, rec2 = histories[k % len(histories)]
         pw = segment.random_password(rng, with_dotted_i=(k % 10 == 0))
-        if rng.random() < 0.3:
-            pw = rng.choice(BASE_WORDS) + rng.choice(BASE_WORDS).capitalize() + rng.choice(['', '1', '!', rng.choice(BASE_WORDS)])
+        if rng.random() < 0.35:
+            parts = [rng.choice(words) for _ in range(rng.choice([2, 2, 3]))]
+            parts = [p if rng.random() < 0.6 else rng.choice([p.capitalize(), p.upper()]) for p in parts]
+            pw = ''.join(parts) + rng.choice(['', '1', '!', '2019'])
+        pw = pw[:21]
         if not pw:
             continue
         tid += 1
         tr, raised = rec2.parse(pw, tid)
         traces.append(tr)
-        meta[tid] = {'password': pw, 'kind': 'fragments', 'raised': raised,
+        meta[tid] = {'password': pw, 'kind': 'fragments', 'raised': raised, 'history': k % len(histories),
                      'final': [(len(x['t']), x['k'], x['n']) for x in tr['snaps'][-1]['sl']]}
 
     verdicts, st = core.validate_traces('TrSeg.tla', traces, chunk=500, timeout=900)
